@@ -1,7 +1,7 @@
 """Per-property check recipes: which models are explored, which stimuli are replayed on the real
 code, which trace specification judges the recorded traces."""
-import json, os, random
-from vlib import ROOT, log
+import re, json, os, random, time
+from vlib import ROOT, log, ToolError
 
 ASSUME_COMMON = [
     "TLC 1.8.0 and the CommunityModules Json/IOUtils are trusted",
@@ -963,7 +963,36 @@ def limbs(v):
     return [v & 0xffff, (v >> 16) & 0xffff, (v >> 32) & 0xffff, (v >> 48) & 0xffff]
 
 
+def apalache_routing(ctx):
+    """The routing properties for all configurations up to larger bounds, symbolically (Apalache, RoutingAp.tla)."""
+    import subprocess, shutil
+    maxq, maxt = (8, 3) if ctx.tier == "quick" else (12, 4)
+    d = os.path.join(ctx.dir, "apalache")
+    os.makedirs(d, exist_ok=True)
+    src = open(os.path.join(ROOT, "spec", "RoutingAp.tla")).read()
+    src = re.sub(r"MaxQ == \d+", f"MaxQ == {maxq}", src)
+    src = re.sub(r"MaxT == \d+", f"MaxT == {maxt}", src)
+    open(os.path.join(d, "RoutingAp.tla"), "w").write(src)
+    shutil.copy(os.path.join(ROOT, "spec", "RoutingOpsAp.tla"), d)
+    t = time.time()
+    try:
+        r = subprocess.run(["apalache-mc", "check", "--inv=Inv", "--length=0", "--out-dir=" + os.path.join(d, "out"), "RoutingAp.tla"],
+                           cwd=d, stdout=subprocess.PIPE, stderr=subprocess.STDOUT, text=True, timeout=1500)
+    except subprocess.TimeoutExpired:
+        raise ToolError("apalache-mc timed out on RoutingAp.tla")
+    if "The outcome is: NoError" not in r.stdout:
+        log(r.stdout[-2000:])
+        raise ToolError("Apalache did not confirm the routing invariants of RoutingAp.tla")
+    ctx.notes.append(f"Apalache 0.58 (symbolic, one query): OwnerUnique, RankIsIndexInSlice, NoExitCollision, RankInjective hold for every "
+                     f"assignment of 1..{maxq} queues to {maxt} worker masks over bits 0..{maxq} ({maxq} x 2^{(maxq + 1) * maxt} configurations), "
+                     f"{time.time() - t:.0f} s; TLC checks that the annotated functions equal those of Routing.tla (invariant ApAgree)")
+    ctx.mc_runs.append(dict(model="RoutingAp", cfg=f"apalache MaxQ={maxq} MaxT={maxt}", distinct_states=0, states_generated=0, cases=0,
+                            wall_s=round(time.time() - t, 1)))
+
+
 def run_C17(ctx):
+    if ctx.replay is None:
+        apalache_routing(ctx)
     cfgs = ctx.tlc_mc("MC_Routing", "MC_Routing_" + ctx.tier, workers=1)
     rnd = random.Random(ctx.seed)
     # random configurations with 5-6 queues (beyond the exhaustive bound)
